@@ -5,6 +5,9 @@ import (
 	"go/ast"
 	"go/token"
 	"go/types"
+	"strings"
+	"sync"
+	"time"
 
 	"golang.org/x/tools/go/packages"
 )
@@ -75,12 +78,21 @@ type Exec struct {
 	usedContracts map[string]bool
 	assumptions   map[string]bool
 	noSafety   bool
+	revealed   map[string]bool
+	curMergeA, curMergeB *State
+	feasCache  map[*Term]bool
+	pendingLocs []pendingLoc
+	deadValue  Value
+	binding    map[string]int64
+	boundSeen  map[string]bool
+	smtMu      sync.Mutex
+	goalValid  map[*Term]bool
 }
 
 func NewExec(prog *Prog, ts *TermStore) *Exec {
 	return &Exec{prog: prog, ts: ts, base: map[*Loc]Value{}, globals: map[*types.Var]*Loc{}, initStore: map[*Loc]Value{},
 		escaped: map[*Loc]bool{}, initDone: map[string]bool{}, initBusy: map[string]bool{}, oblCount: map[string]int{}, loopBound: 8,
-		usedContracts: map[string]bool{}, assumptions: map[string]bool{}}
+		usedContracts: map[string]bool{}, assumptions: map[string]bool{}, revealed: map[string]bool{}, boundSeen: map[string]bool{}, goalValid: map[*Term]bool{}}
 }
 
 // Clone makes an independent executor sharing the (immutable) base store.
@@ -145,7 +157,10 @@ func (ex *Exec) typeOf(e ast.Expr) types.Type {
 	if tv, ok := ex.info().Types[e]; ok {
 		return tv.Type
 	}
-	if tv, ok := ex.prog.Extra.Types[e]; ok {
+	ex.prog.extraMu.RLock()
+	tv, ok := ex.prog.Extra.Types[e]
+	ex.prog.extraMu.RUnlock()
+	if ok {
 		return tv.Type
 	}
 	if id, ok := e.(*ast.Ident); ok {
@@ -161,7 +176,9 @@ func (ex *Exec) tvOf(e ast.Expr) (types.TypeAndValue, bool) {
 	if tv, ok := ex.info().Types[e]; ok {
 		return tv, true
 	}
+	ex.prog.extraMu.RLock()
 	tv, ok := ex.prog.Extra.Types[e]
+	ex.prog.extraMu.RUnlock()
 	return tv, ok
 }
 
@@ -173,6 +190,8 @@ func (ex *Exec) objOf(id *ast.Ident) types.Object {
 	if o, ok := inf.Defs[id]; ok {
 		return o
 	}
+	ex.prog.extraMu.RLock()
+	defer ex.prog.extraMu.RUnlock()
 	if o, ok := ex.prog.Extra.Uses[id]; ok {
 		return o
 	}
@@ -186,6 +205,8 @@ func (ex *Exec) selOf(s *ast.SelectorExpr) *types.Selection {
 	if x, ok := ex.info().Selections[s]; ok {
 		return x
 	}
+	ex.prog.extraMu.RLock()
+	defer ex.prog.extraMu.RUnlock()
 	if x, ok := ex.prog.Extra.Selections[s]; ok {
 		return x
 	}
@@ -220,6 +241,9 @@ func (ex *Exec) assert(st *State, kind string, goal *Term, p token.Pos, note str
 	if p != token.NoPos {
 		ps = ex.pos(p)
 	}
+	if conjunctOf(st.pc, goal, 256) {
+		goal = ex.ts.True() // already part of the path condition
+	}
 	ex.obls = append(ex.obls, &Obligation{Name: name, Kind: kind, NFacts: len(ex.facts), PC: st.pc, Goal: goal, Pos: ps, Note: note})
 	// later obligations on this path may rely on it
 	ex.facts = append(ex.facts, ex.ts.Implies(st.pc, goal))
@@ -230,15 +254,34 @@ func (ex *Exec) assume(st *State, fact *Term) {
 }
 
 // mergeStates joins two states; c selects a (else b).
-func (ex *Exec) mergeStates(a, b *State) *State {
+func (ex *Exec) mergeStates(a, b *State) (res *State) {
 	if a == nil {
 		return b
 	}
 	if b == nil {
 		return a
 	}
-	c := a.pc
-	n := &State{pc: ex.ts.Or(a.pc, b.pc), store: make(map[*Loc]Value, len(a.store))}
+	ex.curMergeA, ex.curMergeB = a, b
+	defer func() {
+		if r := recover(); r != nil {
+			u, ok := r.(*unsupportedErr)
+			if !ok || !strings.HasPrefix(u.msg, "merge of") {
+				panic(r)
+			}
+			// values of incompatible shape: one of the two paths may be infeasible
+			if !ex.feasible(a) {
+				res = b
+				return
+			}
+			if !ex.feasible(b) {
+				res = a
+				return
+			}
+			panic(r)
+		}
+	}()
+	c := ex.selector(a, b)
+	n := &State{pc: ex.ts.OrPC(a.pc, b.pc), store: make(map[*Loc]Value, len(a.store))}
 	for k, va := range a.store {
 		if vb, ok := b.store[k]; ok {
 			if va == vb {
@@ -255,6 +298,10 @@ func (ex *Exec) mergeStates(a, b *State) *State {
 			n.store[k] = vb
 		}
 	}
+	for _, pl := range ex.pendingLocs {
+		n.store[pl.l] = pl.v
+	}
+	ex.pendingLocs = nil
 	return n
 }
 
@@ -419,4 +466,105 @@ func (ex *Exec) flowStates(fl *Flow) []*State {
 		out = append(out, r.St)
 	}
 	return out
+}
+
+// feasible asks the solver whether the path condition of st can hold at all.
+func (ex *Exec) feasible(st *State) bool {
+	if st.pc.IsFalse() {
+		return false
+	}
+	if st.pc.IsTrue() {
+		return true
+	}
+	if ex.feasCache == nil {
+		ex.feasCache = map[*Term]bool{}
+	}
+	if v, ok := ex.feasCache[st.pc]; ok {
+		return v
+	}
+	asserts := append(append([]*Term(nil), ex.facts...), st.pc)
+	sr := Solve(ex.ts.SMTScript(asserts, nil, ""), 10*time.Second, []string{"z3-new"})
+	r := sr.Status != "unsat"
+	ex.feasCache[st.pc] = r
+	return r
+}
+
+// mergeRet merges two return paths (state + result values); an infeasible path is dropped.
+func (ex *Exec) mergeRet(a *State, va []Value, b *State, vb []Value) (rs *State, rv []Value) {
+	defer func() {
+		if r := recover(); r != nil {
+			u, ok := r.(*unsupportedErr)
+			if !ok || !strings.HasPrefix(u.msg, "merge of") {
+				panic(r)
+			}
+			ex.pendingLocs = nil
+			if !ex.feasible(a) {
+				rs, rv = b, vb
+				return
+			}
+			if !ex.feasible(b) {
+				rs, rv = a, va
+				return
+			}
+			panic(r)
+		}
+	}()
+	ex.curMergeA, ex.curMergeB = a, b
+	out := make([]Value, len(va))
+	sel := ex.selector(a, b)
+	for k := range va {
+		out[k] = ex.iteValue(sel, va[k], vb[k])
+	}
+	pend := ex.pendingLocs
+	ex.pendingLocs = nil
+	st := ex.mergeStates(a, b)
+	for _, pl := range pend {
+		st.store[pl.l] = pl.v
+	}
+	return st, out
+}
+
+// checkNil emits the nil-dereference obligation for p; false means p is definitely nil
+// (the path is then dead).
+func (ex *Exec) checkNil(st *State, p *PtrV, pos token.Pos) bool {
+	if p.Nil {
+		ex.assert(st, "safety.nil", ex.ts.False(), pos, "nil dereference")
+		st.pc = ex.ts.False()
+		return false
+	}
+	if p.NilIf != nil && !p.NilIf.IsFalse() {
+		ok := ex.ts.Not(p.NilIf)
+		if conjunctOf(st.pc, ok, 64) {
+			return true
+		}
+		ex.assert(st, "safety.nil", ok, pos, "nil dereference")
+		st.pc = ex.ts.And(st.pc, ok)
+	}
+	return true
+}
+
+// conjunctOf reports whether t occurs as a conjunct of pc (syntactically).
+func conjunctOf(pc, t *Term, budget int) bool {
+	if pc == t {
+		return true
+	}
+	if budget <= 0 || pc.Op != OpAnd {
+		return false
+	}
+	return conjunctOf(pc.Args[1], t, budget-1) || conjunctOf(pc.Args[0], t, budget-1)
+}
+
+// selector returns a condition that tells path a from path b (they are exclusive): the part
+// of a's path condition that is not shared with b. If b's distinguishing part is the plain
+// negation of a single condition, that condition is used directly.
+func (ex *Exec) selector(a, b *State) *Term {
+	_, ra, rb, ok := ex.ts.SplitPC(a.pc, b.pc)
+	if !ok {
+		return a.pc
+	}
+	if ra.IsTrue() {
+		// a is the prefix itself: a is selected when b's extra conditions fail
+		return ex.ts.Not(rb)
+	}
+	return ra
 }
